@@ -18,6 +18,9 @@ package postprocessor
 //@   property C17
 //@   attr hooked @C01 inputCh,outputCh
 //@   attr cancellable @C03 inputCh,outputCh,ResumeCh
+//@   local stopSeen int = 0
+//@   after selrecv(done(ctx)): stopSeen = 1
+//@   loop for invariant [returns-on-stop] @C03 stopSeen == 0 // C03: a stop request returns within bounded time (once the goroutine has seen its context cancelled it returns: it never comes back to the head of its loop)
 //@   replay c03_stopPaused_postprocessor:cancellable:ResumeCh
 //@   local nIn int = 0
 //@   local nOut int = 0
